@@ -56,7 +56,7 @@ partial def loop (prop : String) (stdin : IO.FS.Stream) (h : Hist) (inHash : UIn
     let h := h.finish
     -- C12: the pair comparison, and on both members of the pair the decisions as the naive reader of
     -- Spec/Defs.lean takes them (store / reuse / validate / liveness; huge numbers never wrap)
-    let mon := if prop == "C12" then first? [monC12 prev h, monC01 h, monC02 h, monC06 h, monC09 h] else monitorFor4 prop h
+    let mon := if prop == "C12" then first? [monC12 prev h, monC01 h, monC02 h, monC06 h, monC09 h, monHugeMinFresh h] else monitorFor4 prop h
     let corr := checkHistory h
     IO.println s!"STAT\t{h.id}\t{h.cls}\t{inHash}\t{if nontrivial h then 1 else 0}\t{signature h}"
     match mon with
